@@ -12,7 +12,9 @@
 (*   Box<Self<..>> | Vec<Self<..>> | Option<Box<Self>> | Vec<(Self<..>, p)> *)
 (*   Vec<(Self<..>, p::A)>                                                  *)
 (*   #[codec(skip)] p | #[codec(skip)] NoInfoG<p> | #[codec(skip)] NoInfo   *)
-(*   #[codec(compact)] u32 | u64                                            *)
+(*   #[codec(compact)] u32 | u64 | #[codec(compact)] p | #[codec(compact)]  *)
+(*   p::A  (TypeInfo derive only: with derived Encode the README's known     *)
+(*   issue #65 applies)                                                      *)
 (* plus modifiers: skip_type_params, bounds(..), defaults, inline bounds,   *)
 (* where-clauses.                                                           *)
 (*                                                                         *)
@@ -26,9 +28,10 @@
 EXTENDS Naturals, Sequences, FiniteSets, SequencesExt, TLC, Json
 CONSTANTS TwoFields, Pairwise
 Templates == {"direct", "vec", "opt", "arr", "tup", "box", "result", "phantom", "assoc", "qassoc", "vecassoc",
-              "selfbox", "selfvec", "selfkw", "selfmix", "selfassoc", "skipT", "skipNoInfoG", "skipNoInfo", "compactc", "concrete"}
-Encoding == {"direct", "vec", "opt", "arr", "tup", "box", "result", "selfmix"}        \* p itself is part of the encoding
-NeedsCfg == {"assoc", "qassoc", "vecassoc", "selfassoc"}
+              "selfbox", "selfvec", "selfkw", "selfmix", "selfassoc", "skipT", "skipNoInfoG", "skipNoInfo", "compactc", "concrete",
+              "compactp", "compactassoc"}
+Encoding == {"direct", "vec", "opt", "arr", "tup", "box", "result", "selfmix", "compactp"}        \* p itself is part of the encoding
+NeedsCfg == {"assoc", "qassoc", "vecassoc", "selfassoc", "compactassoc"}
 SelfRef == {"selfbox", "selfvec", "selfkw", "selfmix", "selfassoc"}
 Skipped == {"skipT", "skipNoInfoG", "skipNoInfo"}
 MentionsP == Templates \ {"selfbox", "selfvec", "selfkw", "skipNoInfo", "compactc", "concrete"}
@@ -38,7 +41,11 @@ VARIABLE d
 \* d = [np |-> 1..2, fields |-> Seq([t, p]), mods |-> SUBSET Modifiers]
 FieldsOf(np) == LET ps == IF np = 1 THEN {"T"} ELSE Params
                     F == {[t |-> t, p |-> p] : t \in Templates, p \in ps} IN
-                {<<f>> : f \in F} \cup (IF TwoFields THEN {<<f, g>> : f \in {[t |-> t, p |-> "T"] : t \in Templates}, g \in {[t |-> t, p |-> p] : t \in {"direct", "phantom", "assoc", "selfassoc", "skipNoInfoG", "vecassoc"}, p \in ps}} ELSE {})
+                {<<f>> : f \in F}
+                \cup { <<[t |-> "direct", p |-> "T"], [t |-> "compactp", p |-> "T"]>>, <<[t |-> "compactp", p |-> "T"], [t |-> "direct", p |-> "T"]>>,
+                       <<[t |-> "assoc", p |-> "T"], [t |-> "compactassoc", p |-> "T"]>>, <<[t |-> "vec", p |-> "T"], [t |-> "compactp", p |-> "T"]>>,
+                       <<[t |-> "compactassoc", p |-> "T"], [t |-> "assoc", p |-> "T"]>> }       \* the same generic type plain and compact
+                \cup (IF TwoFields THEN {<<f, g>> : f \in {[t |-> t, p |-> "T"] : t \in Templates}, g \in {[t |-> t, p |-> p] : t \in {"direct", "phantom", "assoc", "selfassoc", "skipNoInfoG", "vecassoc", "compactp", "compactassoc"}, p \in ps}} ELSE {})
 \* always-covered pairs (interactions of the attribute paths with lifetimes and with skipping)
 CorePairs == {{"custom", "lifetime"}, {"custom", "lifetime2"}, {"skip", "custom"}, {"skip", "enum"}, {"skip", "where"}, {"skip", "inline"}, {"skip", "lifetime"}}
 ModSets == {M \in SUBSET Modifiers : (Cardinality(M) <= (IF Pairwise THEN 2 ELSE 1) \/ M \in CorePairs) /\ ~({"lifetime", "lifetime2"} \subseteq M) /\ ~({"enum", "tuple"} \subseteq M)
@@ -67,6 +74,8 @@ MemberOK(f) ==
     [] f.t \in {"compactc", "concrete", "phantom", "selfbox", "selfvec", "selfkw"} -> TRUE
     [] f.t \in Encoding \ {"selfmix"} -> f.p \notin SkipSet                 \* p: TypeInfo from the parameter bound
     [] f.t = "selfmix" -> f.p \notin SkipSet
+    [] f.t = "compactp" -> f.p \notin SkipSet                               \* p: TypeInfo (parameter bound) and p: HasCompact (member bound)
+    [] f.t = "compactassoc" -> TRUE                                         \* the member bound must give HasCompact AND TypeInfo
     [] f.t \in {"assoc", "qassoc"} -> AssocBound(f.p)
     [] f.t = "vecassoc" -> AssocBound(f.p) \/ VecAssocBound(f.p)
     [] f.t = "selfassoc" -> AssocBound(f.p)                                 \* only if some OTHER member or bounds(..) binds p::A
